@@ -27,6 +27,8 @@ pub const SPEC: PropSpec = PropSpec {
         "for an SRTLA ACK / NAK of a sequence held by several links the monitor follows whichever single holder the implementation retired (the property allows any one holder; precise NAK attribution is C05)",
     ],
     floors: &[
+        ("histories.deep_backlog", 2_000, 50_000),
+        ("max.outstanding_per_link", 1_000, 1_200),
         ("ack.path.skip", 1_000, 50_000),
         ("ack.path.fast", 1_000, 50_000),
         ("ack.path.retain", 1_000, 50_000),
@@ -76,11 +78,31 @@ fn data_pkt(seq: u32, len: usize) -> Vec<u8> {
     v
 }
 
+thread_local! {
+    /// deep-backlog histories (thousands outstanding per link) compare the full sets only every 16th operation;
+    /// the count, score and queue comparisons stay on every operation
+    static SPARSE_FULL_COMPARE: std::cell::Cell<(bool, u64)> = const { std::cell::Cell::new((false, 0)) };
+}
+
 fn check_all(h: &Hist, rep: &mut Report, what: &str, detail: &dyn Fn() -> String) -> bool {
     let mut ok = true;
+    let (sparse, tick) = SPARSE_FULL_COMPARE.with(|c| {
+        let (s, t) = c.get();
+        c.set((s, t + 1));
+        (s, t)
+    });
+    let full = !sparse || tick % 16 == 0;
     for (i, (c, m)) in h.conns.iter().zip(h.model.iter()).enumerate() {
         rep.eval();
         let real_n = c.in_flight_packets;
+        rep.max("max.outstanding_per_link", m.out.len() as u64);
+        if !full {
+            if real_n as usize != m.out.len() || c.packet_log.len() != m.out.len() {
+                rep.violation("C02.inflight.mismatch", format!("after {what} link {i}: in_flight_packets={real_n} log size {} model={} | {}", c.packet_log.len(), m.out.len(), detail()));
+                ok = false;
+            }
+            continue;
+        }
         if real_n < 0 {
             rep.violation("C02.inflight.negative", format!("link {i} in_flight {real_n} after {what}: {}", detail()));
             ok = false;
@@ -167,7 +189,14 @@ pub fn run_history(rng: &mut Rng, rep: &mut Report, direct_core: bool) {
     let mut next_seq = base;
     let mut last_ack: Option<u32> = None; // highest cumulative ACK issued so far
     let mut below_ack_sent: Vec<u32> = Vec::new(); // seqs sent at/below an earlier ack and not yet re-acked
-    let n_ops = 50 + rng.usize_below(551);
+    // one history in twelve builds a deep backlog: sends dominate, cumulative ACKs are rare and small, so that
+    // hundreds to thousands of sequences are outstanding per link (stalled receiver, long RTT)
+    let deep = rng.chance(1, 12);
+    SPARSE_FULL_COMPARE.with(|c| c.set((deep, 0)));
+    if deep {
+        rep.count("histories.deep_backlog");
+    }
+    let n_ops = if deep { 600 + rng.usize_below(1400) } else { 50 + rng.usize_below(551) };
     let mut kinds: Vec<u64> = Vec::with_capacity(n_ops);
     let mut has_post_ack_retrans = false;
     let mut sample_ops: Vec<String> = Vec::new();
@@ -178,7 +207,7 @@ pub fn run_history(rng: &mut Rng, rep: &mut Report, direct_core: bool) {
         h.now += rng.below(21);
         rt::set_now(h.now);
         let now = h.now;
-        let w = rng.weighted(&[50, 14, 10, 8, 4, 4, 3]);
+        let w = if deep { rng.weighted(&[60, 2, 8, 8, 2, 3, 17]) } else { rng.weighted(&[50, 14, 10, 8, 4, 4, 3]) };
         match w {
             0 => {
                 // send
@@ -503,6 +532,8 @@ pub fn run_history(rng: &mut Rng, rep: &mut Report, direct_core: bool) {
             }
         }
     }
+    SPARSE_FULL_COMPARE.with(|c| c.set((false, 0)));
+    check_all(&h, rep, "end", &|| "end of history".to_string());
     rep.count("histories");
     if has_post_ack_retrans {
         rep.count("histories.with_post_ack_retransmission");
